@@ -173,7 +173,15 @@ class ModuleCheck:
         sub = vlib.extract_subtrace(trace_file, ln)
         os.makedirs(os.path.join(ROOT, "replays"), exist_ok=True)
         path = os.path.join(ROOT, "replays", f"{pid}-{tag}-seed{seed}.ndjson")
-        evs = [json.loads(x)["ev"] for x in sub if x.strip()]
+        evs = []
+        for x in sub:
+            if not x.strip():
+                continue
+            rec = json.loads(x)
+            e = rec["ev"]
+            if rec.get("orig"):          # member of a failed bundle: re-execute the message itself
+                e = dict(e, name=rec["orig"])
+            evs.append(e)
         evs = [e for e in evs if e.get("name") != "Init"]
         cfg = json.loads(sub[0]).get("cfg", cfg) if sub else cfg
         with open(path, "w") as f:
@@ -252,8 +260,17 @@ class ModuleCheck:
             "model_counterexamples": [{"cfg": c, "property": p} for c, p, _ in cex_traces],
             "samples": vlib.sample_lines(allf, 3),
         })
+        # post hooks (big-number tiers).  A hook that cannot finish (solver killed, timeout) must not hide
+        # a clause failure the trace validation has already established: its inconclusiveness is reported
+        # only if nothing else decides the run.
+        hook_inconclusive = None
         for hook in self.post:
-            pv, pcov = hook(self, pid, tier, seed, work)
+            try:
+                pv, pcov = hook(self, pid, tier, seed, work)
+            except Inconclusive as ex:
+                hook_inconclusive = ex
+                log(f"[post] {ex}")
+                continue
             cov.update(pcov)
             if pv and not viol:
                 path, text = pv[0]
@@ -270,6 +287,8 @@ class ModuleCheck:
             log(f"clause {clause} failed on a real-code trace (and {len(viol)-1} more clause instances)")
             print(f"VIOLATION property={pid} replay={path}", flush=True)
             return 1, cov, len(viol)
+        if hook_inconclusive is not None:
+            raise hook_inconclusive
         if vlib.CRASHES:
             log(f"INCONCLUSIVE property={pid}: {len(vlib.CRASHES)} driver run(s) died and no clause failed on what they "
                 f"had recorded (first: {vlib.CRASHES[0]})")
